@@ -9,7 +9,8 @@ OPS = {"s": ";", "a": "&&", "o": "||"}
 RULE = ("in-process: every operator/status program of length 1..6 (3 operators per gap x 2 statuses per pipeline) through "
         "execute::run_command_line with a scripted run_proc, random programs up to length 12 with decoy operators in quotes/escapes, "
         "pipes, statuses 2..255 and a non-zero previous status; malformed lines through line_to_cmds only; process level: "
-        "sampled programs through `cicada -c` and as a script with marker-writing stage helpers. "
+        "sampled programs through `cicada -c` and as a script with marker-writing stage helpers, also behind a background job that ends while the "
+        "first foreground pipeline still runs. "
         "non-trivial = distinct (operator sequence, status-zero pattern, executed-set) triples in which at least one pipeline is skipped "
         "or the program has >= 2 operators")
 
@@ -111,6 +112,25 @@ def process_cases(tier, rng, escapes=True):
             segs.append((" " if i > 0 else "") + " ".join(w) + (" " if i < len(sts) - 1 else ""))
         f = prog_fields(segs, ops, sts)
         cases.append(Case("list", f, {"gen": "p", "ops": "".join(ops), "sts": tuple(sts), "segs": segs}))
+    cases += bg_cases(tier, progs)
+    return cases
+
+
+BG_KINDS = ["0", "3", "sig15", "sig9", "0", "sig2"]
+
+
+def bg_cases(tier, progs):
+    """a background job started first on the same line ends -- by exit or by a signal -- while the first foreground pipeline still
+    runs: the list must neither resume early nor take the background child's status (`stage - sig15 d40 & ; stage 0 3 d160 && ...`)"""
+    cases = []
+    nb = 24 if tier == "quick" else 300
+    for j, (ops, sts) in enumerate(progs[:nb]):
+        segs = ["stage - %s d40 & " % BG_KINDS[j % len(BG_KINDS)]]
+        for i, st in enumerate(sts):
+            segs.append(" stage %d %d%s%s" % (i, st, " d160" if i == 0 else "", " " if i < len(sts) - 1 else ""))
+        ops2, sts2 = ["s"] + list(ops), [0] + list(sts)
+        f = prog_fields(segs, ops2, sts2)
+        cases.append(Case("list", f, {"gen": "p", "ops": "".join(ops2), "sts": tuple(sts2), "segs": segs, "bg": True}))
     return cases
 
 
@@ -132,8 +152,10 @@ def run_process(cicada, cases, mode):
             os.remove(log)
         segs = c.meta["segs"]
         sts = c.meta["sts"]
+        off = 1 if c.meta.get("bg") else 0          # the background job writes no marker: it is the first item, always launched
         try:
-            tr = ",".join(hx(segs[int(k)].strip(" ")) + ":" + str(sts[int(k)]) for k in ids) or "[]"
+            tr = ",".join(([hx(segs[0].strip(" ")) + ":0"] if off else []) +
+                          [hx(segs[int(k) + off].strip(" ")) + ":" + str(sts[int(k) + off]) for k in ids]) or "[]"
         except Exception:
             tr = "BAD-LOG " + ",".join(ids)
         return c.id, "%s|%s" % (tr, rc)
